@@ -6,6 +6,9 @@ From SV Require Import Base.Bytes Generated.SourceParams.
 Import ListNotations.
 From SV Require Import Model.RustStr Model.Headers Model.Request.
 
+Lemma content_type_translated : src_problems_content_type = 0%nat.
+Proof. reflexivity. Qed.
+
 (* ---- src/content_type.rs ---- *)
 (* the variant names of the source, paired with the constructors of the model *)
 Definition ct_names : list (bytes * ctype) :=
